@@ -76,11 +76,15 @@ def gen_source(rng, hazardous=True) -> Src:
 
     def body(did, depth):
         nst = rng.randrange(1, 5)
+        used_keys: set[str] = set()
         if rng.random() < 0.35:
             s.lines.append(ind(depth) + lc(did, depth))
         for _ in range(nst):
             r = rng.random()
             k = gen.plain_key(rng)
+            while k in used_keys or k in ("fromA", "fromB", "nb"):
+                k = gen.plain_key(rng)          # a well-formed dict declares every key once
+            used_keys.add(k)
             if r < 0.2 and depth < 3:
                 s._dict_counter += 1
                 nd = s._dict_counter
